@@ -907,7 +907,7 @@ impl ParserListener for Screen {
         let how = how.unwrap_or(0);
         let interval: Box<dyn Iterator<Item = u32>> = match how {
             0 => Box::new(self.cursor.x..self.columns),
-            1 => Box::new(0..=self.cursor.x),
+            1 => Box::new(0..=u32::min(self.cursor.x, self.columns - 1)),
             2 => Box::new(0..self.columns),
             _ => Box::new(0..0), // Unsupported `how` values are ignored
         };
